@@ -194,6 +194,60 @@ fn right_depth(e: &sqlparser::ast::SetExpr) -> u64 {
     }
 }
 
+// ---- translator validation: stacks observed at the dialect hooks (a wrapper dialect that
+// delegates to a real one and records the parser frames that lead to each hook call)
+thread_local! {
+    static PAIRS: std::cell::RefCell<std::collections::BTreeSet<(String, String)>> = std::cell::RefCell::new(Default::default());
+}
+fn capture() {
+    let bt = std::backtrace::Backtrace::force_capture().to_string();
+    let mut frames: Vec<String> = vec![]; // innermost first
+    for line in bt.lines() {
+        let l = line.trim_start();
+        if let Some(pos) = l.find(": ") {
+            if !l[..pos].is_empty() && l[..pos].chars().all(|c| c.is_ascii_digit()) {
+                let sym = &l[pos + 2..];
+                if sym.contains("sqlparser::parser::") || sym.contains("sqlparser::dialect::") {
+                    frames.push(sym.to_string());
+                }
+            }
+        }
+    }
+    PAIRS.with(|p| {
+        let mut p = p.borrow_mut();
+        for w in frames.windows(2) {
+            p.insert((w[1].clone(), w[0].clone())); // (caller, callee)
+        }
+    });
+}
+#[derive(Debug)]
+struct Probe(Box<dyn sqlparser::dialect::Dialect>);
+impl sqlparser::dialect::Dialect for Probe {
+    fn dialect(&self) -> std::any::TypeId { self.0.dialect() }
+    fn is_identifier_start(&self, ch: char) -> bool { self.0.is_identifier_start(ch) }
+    fn is_identifier_part(&self, ch: char) -> bool { self.0.is_identifier_part(ch) }
+    fn is_delimited_identifier_start(&self, ch: char) -> bool { self.0.is_delimited_identifier_start(ch) }
+    fn supports_filter_during_aggregation(&self) -> bool { capture(); self.0.supports_filter_during_aggregation() }
+    fn supports_group_by_expr(&self) -> bool { capture(); self.0.supports_group_by_expr() }
+    fn supports_match_recognize(&self) -> bool { capture(); self.0.supports_match_recognize() }
+    fn supports_lambda_functions(&self) -> bool { capture(); self.0.supports_lambda_functions() }
+    fn supports_dictionary_syntax(&self) -> bool { capture(); self.0.supports_dictionary_syntax() }
+    fn support_map_literal_syntax(&self) -> bool { capture(); self.0.support_map_literal_syntax() }
+    fn supports_connect_by(&self) -> bool { capture(); self.0.supports_connect_by() }
+    fn supports_in_empty_list(&self) -> bool { capture(); self.0.supports_in_empty_list() }
+    fn supports_trailing_commas(&self) -> bool { capture(); self.0.supports_trailing_commas() }
+    fn supports_projection_trailing_commas(&self) -> bool { capture(); self.0.supports_projection_trailing_commas() }
+    fn require_interval_qualifier(&self) -> bool { capture(); self.0.require_interval_qualifier() }
+    fn supports_named_fn_args_with_eq_operator(&self) -> bool { capture(); self.0.supports_named_fn_args_with_eq_operator() }
+    fn supports_window_function_null_treatment_arg(&self) -> bool { capture(); self.0.supports_window_function_null_treatment_arg() }
+    fn parse_prefix(&self, parser: &mut Parser) -> Option<Result<sqlparser::ast::Expr, ParserError>> { capture(); self.0.parse_prefix(parser) }
+    fn parse_infix(&self, parser: &mut Parser, expr: &sqlparser::ast::Expr, precedence: u8) -> Option<Result<sqlparser::ast::Expr, ParserError>> { capture(); self.0.parse_infix(parser, expr, precedence) }
+    fn get_next_precedence(&self, parser: &Parser) -> Option<Result<u8, ParserError>> { self.0.get_next_precedence(parser) }
+    fn parse_statement(&self, parser: &mut Parser) -> Option<Result<sqlparser::ast::Statement, ParserError>> { capture(); self.0.parse_statement(parser) }
+    fn prec_value(&self, prec: sqlparser::dialect::Precedence) -> u8 { self.0.prec_value(prec) }
+    fn prec_unknown(&self) -> u8 { self.0.prec_unknown() }
+}
+
 fn main() {
     let a: Vec<String> = std::env::args().collect();
     let cmd = a.get(1).map(|s| s.as_str()).unwrap_or("");
@@ -311,6 +365,19 @@ fn main() {
                     Err(e) => json!({"status": "error", "msg": e.to_string()}),
                 }
             });
+        }
+        "probe" => {
+            vh::quiet_panics();
+            vh::for_each_case(|v| {
+                let d = Probe(vh::dialect_by_name(v["dialect"].as_str().unwrap_or("generic")));
+                let sql = v["sql"].as_str().unwrap_or("").to_string();
+                let r = std::panic::catch_unwind(std::panic::AssertUnwindSafe(|| {
+                    Parser::new(&d).with_recursion_limit(40).try_with_sql(&sql).and_then(|mut p| p.parse_statements()).is_ok()
+                }));
+                json!({"ok": r.unwrap_or(false)})
+            });
+            let pairs: Vec<Value> = PAIRS.with(|p| p.borrow().iter().map(|(a, b)| json!([a, b])).collect());
+            eprintln!("{}", Value::Array(pairs));
         }
         _ => {
             eprintln!("usage: c03_nest list|nest|sibling|reuse|thresh|setops ...");
